@@ -13,6 +13,13 @@ impl Block {
     pub fn empty_body() -> Self {
         Self(vec![])
     }
+
+    /// The net dependencies of a block that belongs to the enclosing function's own body (`if`,
+    /// `else`, `while`, `from`). Such a block is a scope but not a capture boundary: the depth of
+    /// a dependency counts the functions it crosses, so it is not raised here.
+    pub fn net_dependencies_within_function(&self) -> Vec<Dependency> {
+        get_net_dependencies(self, false)
+    }
 }
 
 impl Dependencies for Block {
